@@ -345,10 +345,14 @@ def special_of(case):
     return SPECIALS[case.get("special", 0) % len(SPECIALS)]
 
 
-def expected_path(rep, t, hist):
+def expected_path(rep, t, hist, cyclic=False):
     """path history a CAM sent at time t from report rep can carry: the positions of the earlier CAMs of this
     activation, newest first, relative to the current position in 1e-7 degree, up to the first one outside the
     DeltaLatitude / DeltaLongitude range, at most 23 points; age in 10 ms (1..65534).
+    Longitude is cyclic: two points on either side of the 180 degree meridian are a few metres and 360 degrees of
+    coordinate difference apart. The offset of such a point is either taken as the difference of the coordinates
+    (then it is out of range and the history ends there: cyclic=False) or the short way round (cyclic=True, the offset
+    a receiver adds to the reference position to find the point) - see `path_diff`.
     Returns (points as (dlat, dlon, dt) exact rationals, sure) - sure = no point sits at a range end"""
     if "lat" not in rep or "lon" not in rep:
         return [], True
@@ -356,6 +360,8 @@ def expected_path(rep, t, hist):
     for (hlat, hlon, ht) in reversed(hist):
         dlat = (Fraction(hlat) - Fraction(rep["lat"])) * 10**7
         dlon = (Fraction(hlon) - Fraction(rep["lon"])) * 10**7
+        if cyclic:
+            dlon = (dlon + 1_800_000_000) % 3_600_000_000 - 1_800_000_000
         edge = any(abs(abs(d) - lim) < 2 for d in (dlat, dlon) for lim in (131071, 131072, 131071.5))
         if edge:
             sure = False
@@ -365,6 +371,20 @@ def expected_path(rep, t, hist):
         if len(pts) >= 23:
             break
     return pts, sure
+
+
+def path_diff(got, want, sure):
+    """got: decoded (deltaLatitude, deltaLongitude, pathDeltaTime) triples; None when they are the points `want`"""
+    bad = None
+    if sure and len(got) != len(want):
+        bad = f"{len(got)} path points, {len(want)} earlier CAM positions are within the delta range"
+    for n_, (g, w) in enumerate(zip(got, want)):
+        dt = min(65534, max(1, round(w[2])))
+        if abs(g[0] - w[0]) > 1 or abs(g[1] - w[1]) > 1 or abs(g[2] - dt) > 1 or not (1 <= g[2] <= 65534) \
+                or not (-131071 <= g[0] <= 131072) or not (-131071 <= g[1] <= 131072):
+            bad = bad or (f"path point {n_}: decoded (dLat, dLon, dt) = {g}, the CAM sent {float(w[2]) * 10:.0f} ms "
+                          f"earlier was at ({float(w[0]):.1f}, {float(w[1]):.1f}) 1e-7 deg from here")
+    return bad
 
 
 def run_cam_case(case):
@@ -917,15 +937,17 @@ def check_one(ctx, kind, case, rep, o, info, inp):
                     want, sure = expected_path(rep, o["times"][j], o["hist"][j])
                     got = [(q["pathPosition"]["deltaLatitude"], q["pathPosition"]["deltaLongitude"], q["pathDeltaTime"])
                            for q in lf[1]["pathHistory"]]
-                    bad = None
-                    if sure and len(got) != len(want):
-                        bad = f"{len(got)} path points, {len(want)} earlier CAM positions are within the delta range"
-                    for n_, (g, w) in enumerate(zip(got, want)):
-                        dt = min(65534, max(1, round(w[2])))
-                        if abs(g[0] - w[0]) > 1 or abs(g[1] - w[1]) > 1 or abs(g[2] - dt) > 1 or not (1 <= g[2] <= 65534) \
-                                or not (-131071 <= g[0] <= 131072) or not (-131071 <= g[1] <= 131072):
-                            bad = bad or (f"path point {n_}: decoded (dLat, dLon, dt) = {g}, the CAM sent {float(w[2]) * 10:.0f} ms "
-                                          f"earlier was at ({float(w[0]):.1f}, {float(w[1]):.1f}) 1e-7 deg from here")
+                    bad = path_diff(got, want, sure)
+                    if "lon" in rep and any(abs(Fraction(h[1]) - Fraction(rep["lon"])) > 180 for h in o["hist"][j]):
+                        # an earlier CAM was sent from the other side of the 180 degree meridian: a history that ends
+                        # there (offset = coordinate difference, out of range) and one that goes on with the offsets
+                        # taken the short way round both consist of positions this station reported; anything else
+                        # (a wrapped coordinate difference in the message) is neither
+                        want_c, sure_c = expected_path(rep, o["times"][j], o["hist"][j], cyclic=True)
+                        if want_c != want:
+                            ctx.count(1, "cam_path_history_across_180")
+                            if bad and path_diff(got, want_c, sure_c) is None:
+                                bad, want = None, want_c
                     if bad:
                         ctx.property_failure("cam_path_history", inp, bad, [[float(a), float(b), float(c)] for a, b, c in want][:4],
                                              got[:4])
@@ -1095,40 +1117,109 @@ def rand_vehicle(rng):
             "lights": rng.choice([0, 0x80, 0x01, 0xff, rng.randrange(256)])}
 
 
-def gen_drive(rng, quick):
+# Where a drive takes place. The property quantifies over latitude -90..90 and longitude -180..180, and the path history
+# relates the reports of ONE drive to each other: neighbouring points of the earth need not have neighbouring coordinates
+# (the longitude jumps by 360 degrees at the 180 degree meridian, all longitudes meet at the poles) and the offsets change
+# sign at the equator and at the Greenwich meridian. A region names the line / point the drive is laid across:
+# (name, latitude of the crossing or None = anywhere, longitude of the crossing or None = anywhere)
+DRIVE_REGIONS = (("inland", None, None), ("antimeridian", None, 180.0), ("anywhere", None, None), ("equator", 0.0, None),
+                 ("antimeridian", None, -180.0), ("pole", 90.0, None), ("greenwich", None, 0.0), ("pole", -90.0, None))
+
+
+def wrap_position(lat, lon, track=0.0):
+    """coordinates as a GNSS daemon reports them: over a pole the latitude turns back, the longitude jumps to the
+    opposite meridian and the course reverses; the longitude stays within -180..180"""
+    if lat > 90.0:
+        lat, lon, track = 180.0 - lat, lon + 180.0, track + 180.0
+    elif lat < -90.0:
+        lat, lon, track = -180.0 - lat, lon + 180.0, track + 180.0
+    while lon > 180.0:
+        lon -= 360.0
+    while lon < -180.0:
+        lon += 360.0
+    return lat, lon, track
+
+
+def drive_track(lat, lon, track, turn, speed, period, n):
+    """the true positions of n reports of a drive starting at (lat, lon)"""
+    pts = []
+    for _ in range(n):
+        pts.append((lat, lon, track % 360.0))
+        d = speed * period / 1000
+        lat += d * math.cos(math.radians(track)) / 111194.9
+        lon += d * math.sin(math.radians(track)) / (111194.9 * max(1e-3, math.cos(math.radians(min(90.0, abs(lat))))))
+        track += turn * period / 1000
+        lat, lon, track = wrap_position(lat, lon, track)
+    return pts
+
+
+def gen_drive(rng, quick, region=None):
     """a vehicle driving along a straight or slowly turning course: reports at a fixed cadence, positions a few metres
     to a few tens of metres apart, long enough for the path history of the low-frequency container to fill up and -
-    for the fast ones - to run out of the DeltaLatitude / DeltaLongitude range (1.4 km)"""
+    for the fast ones - to run out of the DeltaLatitude / DeltaLongitude range (1.4 km). The drive lies anywhere in
+    the coordinate range of the property; drives of a region other than "inland" / "anywhere" are laid so that they
+    cross the line of that region (DRIVE_REGIONS) somewhere in their middle, in either direction; a standing or slow
+    station there is moved across it by the noise of its receiver"""
+    name, lat_x, lon_x = region if region is not None else rng.choice(DRIVE_REGIONS)
     period = rng.choice([100, 200, 500, 1000, 1000])
     n = rng.choice([25, 40, 60]) if quick else rng.choice([40, 90, 200])
-    lat = rng.choice([0.0, 41.387304, -33.9, 59.33, 69.65, -54.8]) + rng.randrange(-1000, 1000) / 1e4
-    lon = rng.choice([2.112485, -70.6, 18.06, 100.0, -120.0, 0.0]) + rng.randrange(-1000, 1000) / 1e4
+    if name == "inland":
+        lat = rng.choice([0.0, 41.387304, -33.9, 59.33, 69.65, -54.8]) + rng.randrange(-1000, 1000) / 1e4
+        lon = rng.choice([2.112485, -70.6, 18.06, 100.0, -120.0, 0.0]) + rng.randrange(-1000, 1000) / 1e4
+    else:
+        lat = rng.uniform(-89.0, 89.0)
+        lon = rng.uniform(-180.0, 180.0)
     speed = rng.choice([0.0, 1.5, 8.0, 14.0, 30.0, 62.0, 85.0])
     track = rng.choice([0.0, 90.0, 180.0, 270.0, float(rng.randrange(0, 360))])
     turn = rng.choice([0.0, 0.0, 2.0, -5.0])
+    noise = rng.choice([0.0, 0.0, 0.0, 3e-7, 4e-6])      # receiver noise, degrees (a few centimetres / decimetres)
+    if lat_x is not None or lon_x is not None:
+        # across the line: not parallel to it, and a station that does not move is moved across by its noise
+        for _ in range(20):
+            c = math.cos(math.radians(track)) if lat_x is not None else math.sin(math.radians(track))
+            if abs(c) > 0.3:
+                break
+            track = float(rng.randrange(0, 360))
+        if speed == 0.0:
+            noise = rng.choice([3e-7, 4e-6])
+        # lay the drive so that report number m is on the line: run it once from a point of the line and move the
+        # start back by what it has covered by then
+        m = rng.randrange(n // 4, max(n // 4 + 1, 3 * n // 4))
+        if lon_x is not None:
+            p = drive_track(lat, lon_x, track, turn, speed, period, m + 1)[m]
+            lon = wrap_position(lat, lon_x - ((p[1] - lon_x + 180.0) % 360.0 - 180.0))[1]
+        elif abs(lat_x) == 90.0:
+            # towards the pole and over it (the course of the model is a loxodrome: it ends in the pole)
+            if math.cos(math.radians(track)) * lat_x < 0:
+                track = (track + 180.0) % 360.0
+            lat = math.copysign(90.0 - min(5.0, m * speed * period / 1000 * abs(math.cos(math.radians(track))) / 111194.9), lat_x)
+        else:
+            p = drive_track(lat_x, lon, track, turn, speed, period, m + 1)[m]
+            lat = lat_x - (p[0] - lat_x)
     t = t0_of(rng)
     reps = []
-    def clear_of_integers(x, k):
-        """the nearest double whose exact scaled value is not within rounding distance of an integer (see `ambiguous`)"""
+    def clear_of_integers(x, k, towards_zero=False):
+        """the nearest double whose exact scaled value is not within rounding distance of an integer (see `ambiguous`);
+        coordinates move towards zero (they stay inside their range)"""
         for _ in range(50):
             if not ambiguous(x, k):
                 break
-            x += 1.3 / (k * 7)
+            x += (-math.copysign(1.3, x) if towards_zero else 1.3) / (k * 7)
         return x
-    for k in range(n):
-        rep = {"ts": t + k * period, "lat": clear_of_integers(lat, 10**7), "lon": clear_of_integers(lon, 10**7),
-               "track": clear_of_integers(track % 360.0, 10), "speed": speed}
+    for k, (plat, plon, ptrack) in enumerate(drive_track(lat, lon, track, turn, speed, period, n)):
+        if noise:
+            plat, plon, _ = wrap_position(max(-90.0, min(90.0, plat + rng.uniform(-noise, noise))),
+                                          plon + rng.uniform(-noise, noise))
+        rep = {"ts": t + k * period, "lat": clear_of_integers(plat, 10**7, True), "lon": clear_of_integers(plon, 10**7, True),
+               "track": clear_of_integers(ptrack, 10), "speed": speed}
         if rng.random() < 0.5:
             rep["altHAE"] = 120.5
         if rng.random() < 0.03:
             del rep["lat"], rep["lon"]         # a report without a fix in the middle of the drive
         reps.append(rep)
-        d = speed * period / 1000
-        lat += d * math.cos(math.radians(track)) / 111194.9
-        lon += d * math.sin(math.radians(track)) / (111194.9 * max(0.2, math.cos(math.radians(lat))))
-        track += turn * period / 1000
     return {"kind": "cam", "t0": t, "station_type": rng.randrange(16), "role": rng.randrange(16), "mode": "drive",
-            "period": period, "reports": reps, "vehicle": rand_vehicle(rng), "special": rng.randrange(len(SPECIALS))}
+            "period": period, "reports": reps, "vehicle": rand_vehicle(rng), "special": rng.randrange(len(SPECIALS)),
+            "region": name}
 
 
 def gen_overlap(rng):
@@ -1173,7 +1264,8 @@ def run(ctx):
                 "oracle and compared field by field with the model; or one received CAM whose generation time is "
                 "reconstructed. Reports: uniform over the property's ranges, values at and around every boundary of the data "
                 "elements (half-unit offsets), every subset of the 7 optional keys, all station types / roles / clustering "
-                "states, an out-of-range stream. Non-trivial = a message was produced and decoded; distinct by "
+                "states, an out-of-range stream; drives (consecutive reports = neighbouring positions) laid over the whole "
+                "coordinate range and across its seams (180 degree meridian, poles, equator, Greenwich). Non-trivial = a message was produced and decoded; distinct by "
                 "(message kind, report, station configuration)")
     rng = ctx.rng
     quick = ctx.tier == "quick"
@@ -1235,7 +1327,8 @@ def run(ctx):
                       "reports": reps[:6]})
     check_cases(ctx, cases, "rand")
     # drives: path history of the low-frequency container, static vehicle data, special-vehicle and extension containers
-    check_cases(ctx, [gen_drive(rng, quick) for _ in range(12 if quick else 120)], "drive")
+    # (seed C11-11) laid anywhere in the coordinate range and across its seams: every region of DRIVE_REGIONS in turn
+    check_cases(ctx, [gen_drive(rng, quick, DRIVE_REGIONS[i % len(DRIVE_REGIONS)]) for i in range(16 if quick else 120)], "drive")
     # overlapping events of one emergency-vehicle application: every repetition against its own trigger
     check_cases(ctx, [gen_overlap(rng) for _ in range(25 if quick else 400)], "overlap")
     # generation time reconstruction
